@@ -556,33 +556,40 @@ def _opted_in(v):
 # Random nestings for the thorough tier.
 # ---------------------------------------------------------------------------
 
-def _rand_expr(r, depth):
+_LEAVES = ['None', 'True', '0', '1', '2', '1.0', '0.5', "'a'", "'b'", "''"]
+# the thorough tier also nests the special leaf kinds at random positions.
+_LEAVES_THOROUGH = _LEAVES * 2 + [
+    'f_add1', 'h1.m1', 'p_1', 'functools.partial(g_k1, k=2)', 'CE(1)', '{1}', 'frozenset({1})',
+    'V(1)', 'U(1)', 'P()', 'E.a', 'fractions.Fraction(2, 1)', 'bytearray([97])', 'pg.Ref(r_1)']
+
+
+def _rand_expr(r, depth, leaves=None):
   # no MISSING_VALUE below symbolic containers: pg.List / pg.Dict treat it as
   # "delete this element" on construction, so it does not denote a value there.
-  leaves = ['None', 'True', '0', '1', '2', '1.0', '0.5', "'a'", "'b'", "''"]
+  leaves = leaves or _LEAVES
   if depth <= 0 or r.random() < 0.3:
     return r.choice(leaves)
   k = r.randrange(6)
   if k == 0:
-    return '[' + ', '.join(_rand_expr(r, depth - 1) for _ in range(r.randrange(3))) + ']'
+    return '[' + ', '.join(_rand_expr(r, depth - 1, leaves) for _ in range(r.randrange(3))) + ']'
   if k == 1:
-    return 'pg.List([' + ', '.join(_rand_expr(r, depth - 1) for _ in range(r.randrange(3))) + '])'
+    return 'pg.List([' + ', '.join(_rand_expr(r, depth - 1, leaves) for _ in range(r.randrange(3))) + '])'
   if k == 2:
     keys = r.sample(['a', 'b', 'c'], r.randrange(4))
-    return '{' + ', '.join(f'{k!r}: {_rand_expr(r, depth - 1)}' for k in keys) + '}'
+    return '{' + ', '.join(f'{k!r}: {_rand_expr(r, depth - 1, leaves)}' for k in keys) + '}'
   if k == 3:
     keys = r.sample(['a', 'b', 'c'], r.randrange(4))
-    return 'pg.Dict({' + ', '.join(f'{k!r}: {_rand_expr(r, depth - 1)}' for k in keys) + '})'
+    return 'pg.Dict({' + ', '.join(f'{k!r}: {_rand_expr(r, depth - 1, leaves)}' for k in keys) + '})'
   if k == 4:
     n = r.randrange(3)
     elems = [r.choice(['0', '1', '2', '1.0', 'True']) for _ in range(n)]
     return '(' + ''.join(e + ', ' for e in elems) + ')'
   cls = r.choice(['A', 'A', 'A2', 'B', 'C', 'F', 'W'])
   if cls == 'C':
-    return f'C({_rand_expr(r, depth - 1)}, {_rand_expr(r, depth - 1)})'
+    return f'C({_rand_expr(r, depth - 1, leaves)}, {_rand_expr(r, depth - 1, leaves)})'
   if cls == 'B' and r.random() < 0.5:
-    return f'B({_rand_expr(r, depth - 1)}, {_rand_expr(r, depth - 1)})'
-  return f'{cls}({_rand_expr(r, depth - 1)})'
+    return f'B({_rand_expr(r, depth - 1, leaves)}, {_rand_expr(r, depth - 1, leaves)})'
+  return f'{cls}({_rand_expr(r, depth - 1, leaves)})'
 
 
 _CHECK_NS = None
@@ -617,7 +624,7 @@ def _pool(tier, seed):
   tries = 0
   while len(exprs) < len(POOL) + extra and tries < 20 * extra:
     tries += 1
-    e = _rand_expr(r, depth)
+    e = _rand_expr(r, depth, _LEAVES if tier == 'quick' else _LEAVES_THOROUGH)
     if e not in seen and _constructible(e):
       seen.add(e)
       exprs.append(e)
